@@ -185,6 +185,7 @@ bool drain(World& W)
   W.draining = true;
   size_t const max_rounds = 60 + 4 * W.stmts.size() + 4 * W.flushes.size();
   int idle_rounds_without_progress = 0;
+  int stuck_rounds = 0; // consecutive rounds: not idle, no worker busy, nothing written, no error reported
   for (size_t round = 0; round < max_rounds && !W.r->failed; ++round)
   {
     for (size_t k = 0; k < W.workers.size(); ++k)
@@ -203,6 +204,21 @@ bool drain(World& W)
     bool any_busy = false;
     for (size_t k = 0; k < W.workers.size(); ++k) if (W.workers[k].alive && worker_busy(W, static_cast<int>(k))) any_busy = true;
     if (W.idle_seen && !progress) ++idle_rounds_without_progress; else idle_rounds_without_progress = 0;
+    // Every round advances the virtual clock by more than the grace period, so whatever is queued or buffered is old enough
+    // to be written. A backend that still holds statements (it never reaches its idle branch), has no frontend thread to
+    // wait for and reports no error, yet writes nothing for 40 rounds in a row, withholds accepted statements for ever.
+    // (C03 cases without sink-filter changes only: there every processed statement shows as a write_log call, so "nothing
+    // written" means "nothing processed"; filtered or stored backtrace statements are processed without a write)
+    bool const every_processed_statement_is_written = is_prop("C03") && !W.lbl_sink_level_changed && !W.lbl_filter_added_late;
+    if (every_processed_statement_is_written && !W.idle_seen && !progress && !any_busy && W.notes.size() == notes_before) ++stuck_rounds;
+    else stuck_rounds = 0;
+    if (stuck_rounds >= 40)
+    {
+      fail(W, "WITHHELD: the backend holds unwritten statements (it never becomes idle), no thread is blocked, the clock has advanced by " +
+                std::to_string(stuck_rounds) + " grace periods and nothing was written or reported: accepted statements are never delivered");
+      W.draining = false;
+      return false;
+    }
     if (!any_busy && idle_rounds_without_progress >= 3) { W.draining = false; return true; }
     if (any_busy && idle_rounds_without_progress >= 6)
     {
